@@ -131,6 +131,40 @@ def run(chk):
             nh += 1
             chk.violation('exact', f'to_transposed({name},{o}) by {n} {d} returned {first}; after the caller edited that result the same call returns '
                           f'{second} (same object: {q2 is q1}; argument now {arg})', {'pitch': f'{name}|{o}', 'interval': n, 'direction': d, 'history': 'edit-result-then-repeat'})
+    # the pitch object is the caller's too: after its octave (or name) is re-assigned through the public setters, the
+    # next transposition of THAT object answers for the new pitch - as a freshly built equal pitch does
+    ne = 0
+    for _ in range(300 if not (chk.tier == 'thorough' or b.drift or not b.proof_ok or not b.modelrun_ok) else 3000):
+        r_ = chk.rng
+        l, a, o = r_.randrange(7), r_.randint(-2, 2), r_.randint(1, 7)
+        name = 'CDEFGAB'[l] + ('+' * a if a >= 0 else '-' * (-a))
+        n, d = r_.choice(names), r_.choice(['up', 'down'])
+        n2, d2 = r_.choice(names), r_.choice(['up', 'down'])
+        o2 = o + r_.choice([-2, -1, 1, 2])
+        name2 = name if r_.random() < 0.6 else 'CDEFGAB'[r_.randrange(7)]
+        chk.case(('edited-argument', name, o, n, d, name2, o2, n2, d2), kind='edited-argument')
+        try:
+            src = kp.AgnosticPitch(name, o)
+            try:
+                kp.AgnosticPitch.to_transposed(src, by_name[n], d)
+            except Exception:
+                pass      # an unspellable result: the object is still the caller's
+            src.octave = o2
+            if name2 != name:
+                src.name = name2
+            q = kp.AgnosticPitch.to_transposed(src, by_name[n2], d2)
+            got = (q.name, q.octave)
+        except Exception as e:
+            got = 'raise:' + type(e).__name__
+        try:
+            f = kp.AgnosticPitch.to_transposed(kp.AgnosticPitch(name2, o2), by_name[n2], d2)
+            want = (f.name, f.octave)
+        except Exception as e:
+            want = 'raise:' + type(e).__name__
+        if got != want and ne < 10:
+            ne += 1
+            chk.violation('exact', f'a pitch ({name},{o}) was transposed once, then set to ({name2},{o2}) through its setters: {n2} {d2} of that object gives {got}, '
+                          f'of a fresh ({name2},{o2}) gives {want}', {'pitch': f'{name2}|{o2}', 'interval': n2, 'direction': d2, 'history': 'transpose-edit-argument-transpose'})
     chk.traces_validated = chk.evaluations
     chk.disagreements_checked = len(chk.broken)
 
